@@ -2202,6 +2202,18 @@ class Process:
                                 f" between {eligible_cpus}"
                             )
                             raise ValueError(msg) from err
+                    if isinstance(err, OSError):
+                        # Every CPU exists and looks eligible to us, yet
+                        # the kernel refused the whole mask (EINVAL): none
+                        # of them is a CPU this process may run on. What
+                        # we read from /proc/{pid}/status is the *current*
+                        # affinity mask, not the cpuset, so the loop
+                        # above can't always tell.
+                        msg = (
+                            f"none of the CPUs {cpus!r} is eligible for"
+                            f" process with PID {self.pid}"
+                        )
+                        raise ValueError(msg) from err
                 raise
 
     # only starting from kernel 2.6.13
